@@ -582,3 +582,288 @@ func c12CompiledBinding(c *Ctx, rule string) {
 		c.R.Break(rule + ": package core installs no FuncAction.F")
 	}
 }
+
+// c10PropsValues: C10-R6.  What the engine and the hosts put into the step properties is what every script can reach
+// as _.props.*: the interpreter copies the properties map itself but not what its entries refer to.  So an entry is a
+// scalar, or a structure made for this call out of scalars — never a reference into the host's own data (a machine's
+// spec source, its live bindings, the pending message).  Two entries are references by design and stay as they are:
+// "ctx" (the call's context) and "crew" (the captain's handle on its crew, sio only, judged by C10-R4 / C15).
+func c10PropsValues(c *Ctx, rule string) {
+	byDesign := map[string]bool{"ctx": true, "crew": true}
+	n := 0
+	var judge func(v ssa.Value, depth int) string
+	judge = func(v ssa.Value, depth int) string {
+		if depth > 6 {
+			return ""
+		}
+		switch x := v.(type) {
+		case *ssa.MakeInterface:
+			return judge(x.X, depth+1)
+		case *ssa.ChangeType:
+			return judge(x.X, depth+1)
+		case *ssa.Convert:
+			return judge(x.X, depth+1)
+		case *ssa.Const:
+			return ""
+		case *ssa.MakeMap:
+			for _, r := range ssau.Referrers(x) {
+				if mu, ok := r.(*ssa.MapUpdate); ok && mu.Map == ssa.Value(x) {
+					if w := judge(mu.Value, depth+1); w != "" {
+						return w
+					}
+				}
+			}
+			return ""
+		case *ssa.Phi:
+			for _, e := range x.Edges {
+				if w := judge(e, depth+1); w != "" {
+					return w
+				}
+			}
+			return ""
+		}
+		switch t := v.Type().Underlying().(type) {
+		case *types.Basic:
+			return ""
+		case *types.Pointer, *types.Map, *types.Slice, *types.Chan:
+			return v.Name() + " (" + v.Type().String() + ")"
+		case *types.Interface:
+			_ = t
+			// an interface value that is handed through: a parameter (the pending message) or a loaded field
+			switch v.(type) {
+			case *ssa.Parameter, *ssa.UnOp, *ssa.Lookup, *ssa.Extract:
+				return v.Name() + " (" + v.Type().String() + ")"
+			}
+		}
+		return ""
+	}
+	for _, f := range c.P.FuncsIn("core", "sio", "cmd/mcrew", "cmd/mdb", "cmd/sheensio", "cmd/msimple", "sio/siostd", "sio/siomq") {
+		ssau.Instrs(f, func(in ssa.Instruction) {
+			mu, ok := in.(*ssa.MapUpdate)
+			if !ok || !ssau.TypeIs(mu.Map.Type(), prog.Abs("core"), "StepProps") {
+				return
+			}
+			key, isS := ssau.ConstString(mu.Key)
+			if isS && byDesign[key] {
+				return
+			}
+			// the copy loop of StepProps.Copy and the like: a value taken from another properties map
+			if lk, isLk := stripIface(mu.Value).(*ssa.Extract); isLk {
+				if nx, isNx := lk.Tuple.(*ssa.Next); isNx {
+					if rg, isRg := nx.Iter.(*ssa.Range); isRg && ssau.TypeIs(rg.X.Type(), prog.Abs("core"), "StepProps") {
+						return
+					}
+				}
+			}
+			n++
+			w := judge(mu.Value, 0)
+			k := key
+			if !isS {
+				k = "(computed key)"
+			}
+			c.R.Check(w == "", rule, fmt.Sprintf("%s: step property %q #%d is a scalar or made for the call", fname(f), k, n), c.pos(mu), "no reference into host-owned data", "the step properties carry a reference to data the host (or the caller) keeps using: "+w+" — the interpreter copies only the top-level properties map, so a script that assigns through _.props."+k+" changes it in place")
+		})
+	}
+	if n == 0 {
+		c.R.Break(rule + ": no entry of core.StepProps is set anywhere in the engine or the hosts")
+	}
+}
+
+func stripIface(v ssa.Value) ssa.Value {
+	for {
+		switch x := v.(type) {
+		case *ssa.MakeInterface:
+			v = x.X
+		case *ssa.ChangeType:
+			v = x.X
+		default:
+			return v
+		}
+	}
+}
+
+// indexAsBound: the result of strings.Index / LastIndex / IndexByte ... (which is -1 when there is no match) is used as
+// a bound of a slice expression or as an index only where a dominating test has excluded the negative case.  Returns
+// one description per unguarded use in the given functions.
+func indexAsBound(c *Ctx, fns []*ssa.Function) (bad []string, n int) {
+	isIndexCall := func(v ssa.Value) *ssa.Call {
+		cl, ok := v.(*ssa.Call)
+		if !ok {
+			return nil
+		}
+		name := ssau.CalleeName(cl)
+		if strings.HasPrefix(name, "strings.Index") || strings.HasPrefix(name, "strings.LastIndex") || strings.HasPrefix(name, "bytes.Index") || strings.HasPrefix(name, "bytes.LastIndex") {
+			return cl
+		}
+		return nil
+	}
+	var origin func(v ssa.Value, depth int) *ssa.Call
+	origin = func(v ssa.Value, depth int) *ssa.Call {
+		if v == nil || depth > 4 {
+			return nil
+		}
+		if cl := isIndexCall(v); cl != nil {
+			return cl
+		}
+		switch x := v.(type) {
+		case *ssa.BinOp:
+			if x.Op.String() == "+" || x.Op.String() == "-" {
+				if cl := origin(x.X, depth+1); cl != nil {
+					return cl
+				}
+				return origin(x.Y, depth+1)
+			}
+		case *ssa.Phi:
+			for _, e := range x.Edges {
+				if cl := origin(e, depth+1); cl != nil {
+					return cl
+				}
+			}
+		case *ssa.Convert:
+			return origin(x.X, depth+1)
+		}
+		return nil
+	}
+	guarded := func(cl *ssa.Call, at *ssa.BasicBlock) bool {
+		for _, ft := range flow.Expand(flow.FactsAt(at)) {
+			bo, ok := ft.Cond.(*ssa.BinOp)
+			if !ok {
+				continue
+			}
+			if bo.X == ssa.Value(cl) || bo.Y == ssa.Value(cl) {
+				switch bo.Op.String() {
+				case "<", "<=", ">", ">=", "==", "!=":
+					return true // any comparison of the result decides the case
+				}
+			}
+		}
+		return false
+	}
+	for _, f := range fns {
+		ssau.Instrs(f, func(in ssa.Instruction) {
+			var ops []ssa.Value
+			switch x := in.(type) {
+			case *ssa.Slice:
+				ops = []ssa.Value{x.Low, x.High, x.Max}
+			case *ssa.IndexAddr:
+				ops = []ssa.Value{x.Index}
+			case *ssa.Index:
+				ops = []ssa.Value{x.Index}
+			case *ssa.Lookup:
+				if _, isStr := x.X.Type().Underlying().(*types.Basic); isStr {
+					ops = []ssa.Value{x.Index}
+				}
+			default:
+				return
+			}
+			for _, o := range ops {
+				cl := origin(o, 0)
+				if cl == nil {
+					continue
+				}
+				n++
+				if !guarded(cl, in.Block()) {
+					bad = append(bad, fmt.Sprintf("%s: %s is used as a bound or index without a test of the no-match case (%s)", fname(f), ssau.CalleeName(cl), c.pos(in)))
+				}
+			}
+		})
+	}
+	return
+}
+
+// c16RecordsComplete: C16-R9.  Storage.WriteState replaces a machine's whole record, so every record that
+// Service.Process hands to it carries the machine's spec source next to its node and bindings: in Process (with its
+// helpers in cmd/mcrew) MachineState.SpecSource is assigned from the live machine's SpecSource once per record — in the
+// loop over the records, on every iteration — before the write.
+// c05HostsIgnoreStopReason: C05-R15.  A host installs and stores the state a walk ended in whatever stopped the walk:
+// no decision in the hosts depends on Walked.StoppedBecause (the next message has to start from the state the previous
+// step produced, also after a walk that hit the step limit).
+func c16RecordsComplete(c *Ctx, rule string) {
+	proc := c.P.Func("cmd/mcrew", "Service", "Process")
+	if proc == nil {
+		c.R.Break(rule + ": cmd/mcrew.(*Service).Process not found")
+		return
+	}
+	ok := false
+	at := c.P.Pos(proc.Pos())
+	for _, f := range append([]*ssa.Function{proc}, pkgClosure(proc)...) {
+		if prog.PkgOf(f) != "cmd/mcrew" || f.Name() == "AddMachine" || f.Name() == "RemMachine" {
+			continue
+		}
+		loops := flow.Loops(f)
+		for _, st := range storesToPkg(f, "cmd/mcrew", "MachineState", "SpecSource") {
+			if ssau.IsNilConst(st.Val) {
+				continue
+			}
+			fromLive := false
+			for _, d := range deepDefs(st.Val, []*ssa.Function{f}) {
+				if _, is := isFieldLoad(d, "crew", "Machine", "SpecSource"); is {
+					fromLive = true
+				}
+			}
+			if !fromLive {
+				continue
+			}
+			L := flow.InnermostLoop(loops, st.Block())
+			every := L != nil
+			if L != nil {
+				for _, latch := range L.Latch {
+					if !st.Block().Dominates(latch) {
+						every = false
+					}
+				}
+			}
+			// or at the construction of the record (a composite literal: the store is to a fresh allocation)
+			if _, _, base, _ := ssau.FieldOf(st.Addr); localFresh(base) {
+				every = true
+			}
+			if every {
+				ok = true
+				at = c.pos(st)
+			}
+		}
+	}
+	c.R.Check(ok, rule, "Process: every record written carries the machine's spec source", at, "MachineState.SpecSource = the live machine's SpecSource, once per record", "the records that Process writes do not (all) carry the spec source: WriteState replaces the whole record, so after its first transition a machine's stored record has lost its specification and a crew rebuilt from the store cannot run it")
+}
+
+func c05HostsIgnoreStopReason(c *Ctx, rule string) {
+	bad := ""
+	n := 0
+	for _, f := range c.P.FuncsIn("sio", "cmd/mcrew", "cmd/msimple", "cmd/sheensio", "crew") {
+		for _, g := range ssau.WithAnon(f) {
+			ssau.Instrs(g, func(in ssa.Instruction) {
+				iff, ok := in.(*ssa.If)
+				if !ok {
+					return
+				}
+				n++
+				var reads func(v ssa.Value, depth int) bool
+				reads = func(v ssa.Value, depth int) bool {
+					if depth > 4 {
+						return false
+					}
+					if _, is := isFieldLoad(v, "core", "Walked", "StoppedBecause"); is {
+						return true
+					}
+					switch x := v.(type) {
+					case *ssa.BinOp:
+						return reads(x.X, depth+1) || reads(x.Y, depth+1)
+					case *ssa.UnOp:
+						return reads(x.X, depth+1)
+					case *ssa.Phi:
+						for _, e := range x.Edges {
+							if reads(e, depth+1) {
+								return true
+							}
+						}
+					}
+					return false
+				}
+				if reads(iff.Cond, 0) {
+					bad = fname(g) + " (" + c.pos(iff) + ")"
+				}
+			})
+		}
+	}
+	c.R.Check(bad == "", rule, "hosts: no decision depends on why a walk stopped", "sio/crew.go", fmt.Sprintf("%d branch conditions in the hosts examined, none reads Walked.StoppedBecause", n), "a host decides on Walked.StoppedBecause in "+bad+": a walk that stopped at the limit (or a breakpoint) is then installed, stored or reported differently, and the machine's next step does not start from the state its previous step produced")
+}
